@@ -85,7 +85,8 @@ def run_cases(ctx, name, modname, fname, cases, rule, nontrivial=None,
                  'set/list/tuple/frozenset/with a repetition, fixed per structure')
         if fname == 'check_mc_case':
             rule += ('; every third formula also on the structure whose labelling was installed by replace_labelling_function (with an extra '
-                     'key that is not a state); CTL* formulas also on a structure carrying atoms named like the reduction\'s markers')
+                     'key that is not a state); CTL* formulas also on a structure carrying atoms named like the reduction\'s markers; two formulas again '
+                     'after the caller toggled a label through labels(s) and added an edge, against the semantics of the edited structure')
         if fname == 'check_fresh_case':
             rule += ('; every query also on the structure whose labelling was installed by replace_labelling_function (with an extra key that '
                      'is not a state and carries every atom of the formulas)')
